@@ -176,12 +176,22 @@ void interpCase(Ctx &c, Rng &g) {
   const Grid<T> grid = mkGrid<T>(pts);
   const Support<T> sup(grid, extraL, extraL + nx);
   std::vector<R> xs(pts.begin() + (long)extraL, pts.begin() + (long)(extraL + nx));
+  // data scale: an exact power of two applied to all ordinates and boundary
+  // values (the conditions are homogeneous in the data); all ordinates zero
+  // now and then
+  static const int scales[] = {0, 0, 0, 0, -60, -110, 40, -30};
+  const int se = scales[(c.caseId / 5) % 8];
+  const R scale = se >= 0 ? R(vq::Z(1) << (unsigned)se)
+                          : R(R(1) / R(vq::Z(1) << (unsigned)(-se)));
+  const bool zeroData = (c.caseId / 40) % 16 == 7;
   std::vector<R> ys;
   std::vector<T> yT;
   for (size_t i = 0; i < nx; i++) {
-    ys.push_back(genCoef(g, dyadic, (int)g.below(3)));
+    ys.push_back(zeroData ? R(0) : R(genCoef(g, dyadic, (int)g.below(3)) * scale));
     yT.push_back(mk<T>(ys.back()));
   }
+  c.count(se == 0 ? "data-scale:1" : (se < 0 ? "data-scale:tiny" : "data-scale:huge"));
+  if (zeroData) c.count("ordinates:all-zero");
   // boundary conditions: default or a random admissible set
   std::vector<BC> bcs;
   std::array<Boundary<T>, order - 1> bs;
@@ -195,7 +205,7 @@ void interpCase(Ctx &c, Rng &g) {
       for (size_t d = 1; d <= order; d++) all.push_back({l == 1, d});
     for (size_t i = 0; i + 1 < order; i++) {
       const size_t k = g.below(all.size());
-      const R v = g.chance(1, 3) ? R(0) : genCoef(g, dyadic, 4);
+      const R v = g.chance(1, 3) ? R(0) : R(genCoef(g, dyadic, 4) * scale);
       bcs.push_back(BC{all[k].first, all[k].second, v});
       all.erase(all.begin() + (long)k);
     }
